@@ -43,6 +43,8 @@ pub struct Profile {
     pub max_encs: usize,
     /// edits weights: add_dim, del_dim, add_attr, del_attr, rename, disable
     pub w_edits: [u32; 6],
+    /// policies have 1..=max_clauses clauses
+    pub max_clauses: usize,
 }
 
 impl Profile {
@@ -75,6 +77,7 @@ impl Profile {
             max_keys: 5,
             max_encs: 6,
             w_edits: [2, 1, 4, 3, 2, 2],
+            max_clauses: 3,
         }
     }
 }
@@ -437,7 +440,7 @@ impl HistGen {
         if self.rng.chance(1, 8) {
             return "*".into();
         }
-        let n = 1 + self.rng.below(3);
+        let n = 1 + self.rng.below(self.p.max_clauses);
         let mut clauses = vec![];
         for _ in 0..n {
             let c = self.clause();
